@@ -144,9 +144,26 @@ def run_cases(pid, seed, n, tier, release, report, tagsuffix="", model=True):
     wd = f"{WORK}/{pid}"
     os.makedirs(wd, exist_ok=True)
     binp = f"{HARNESS}/target/{'release' if release else 'debug'}/xeh-verif-harness"
-    rc, out = sh([binp, "emit", pid, str(seed), str(n), wd, tier], timeout=3000)
+    # a check that normally takes seconds is given minutes; an implementation that no longer terminates (e.g. an
+    # instruction limit that has stopped limiting) is reported as a violation with the input it hangs on, not waited for
+    emit_timeout = int(os.environ.get("VERIF_EMIT_TIMEOUT", "0")) or (900 if tier == "quick" else 3000)
     suffix = ".release" if release else ""
     base = f"{wd}/{pid}{suffix}"
+    try:
+        os.remove(f"{wd}/{pid}.progress")
+    except OSError:
+        pass
+    try:
+        rc, out = sh([binp, "emit", pid, str(seed), str(n), wd, tier], timeout=emit_timeout)
+    except subprocess.TimeoutExpired:
+        last = ""
+        try:
+            last = open(f"{wd}/{pid}.progress").read()[-2000:]
+        except OSError:
+            pass
+        report["harness_run_error"] = (f"the implementation did not terminate within {emit_timeout} s "
+                                       f"(seed {seed}, tier {tier}); it was last given: {last or '(no progress note)'}")
+        return None
     if rc != 0:
         report["harness_run_error"] = f"rc={rc} (a crash/abort of the implementation process?)\n{out[-2000:]}"
         return None
@@ -266,8 +283,10 @@ def main():
         return path
     if "harness_run_error" in report:
         # the implementation process died (abort / stack overflow / OOM) — that is itself a C08-style failure of this run
-        path = write_replay("implementation process died", {"detail": report["harness_run_error"]})
-        print(f"VIOLATION property={pid} replay={path} no-failing-input-found"); rc = 1
+        hung = "did not terminate" in report["harness_run_error"] and "(no progress note)" not in report["harness_run_error"]
+        path = write_replay("implementation did not terminate on the input named in `detail`" if hung else "implementation process died",
+                            {"detail": report["harness_run_error"]})
+        print(f"VIOLATION property={pid} replay={path}" + ("" if hung else " no-failing-input-found")); rc = 1
     if new_of:
         path = write_replay("implementation-side oracle failure (concrete failing input)", {"failing_inputs": new_of[:10],
                             "model_disagreements": disagreements[:5]})
